@@ -5,6 +5,7 @@ Driver commands of the Depth area (C19).
 
 * `measure <fn> <dir> <n>` — run the depth model of `<fn>` on the family `<dir>` at depth `n`
   (`n ≤ 5000`: the models are structurally recursive themselves), answer `ok <frames>`.
+  `measure mark closure|cont <n>` runs the graph-level marker model `markDepthHeap` on `closureChain n` / `contChain n`.
 * `grid <op> <dir> <n> <thread> <profile>` — what the model says about a scenario of the grid:
   `bounded|unbounded <group>=<frames>,…` from the closed forms (`Proofs/C19.closedForm_eq_model`
   proves them equal to the models for every `n`), or `unmodelled`.
@@ -36,6 +37,14 @@ def okNat : Option Nat → Option String
   | some k => some s!"ok {k}"
   | none => some "err fuel"
 
+/-- frames the evaluation context adds below the oldest continuation of a chain captured by the harness program
+    `(define (wrap acc) (call/cc (lambda (k) k)))` inside a named-let loop of a top-level form: the saved stack of every
+    continuation also holds the return addresses into the loop and into the top-level code object, and its `ep` is the
+    loop's environment; the deepest of these paths (loop environment → enclosing environment → the loop's closure →
+    its environment) is 6 frames longer than the path through `ip.0` that `contChain` models. The closure chain has
+    no such context (`wrap` is a top-level procedure; its closures capture only `acc`). -/
+def contContext : Nat := 6
+
 def measure (fn dir : String) (n : Nat) : Option String :=
   if n > 5000 then none else
   match fn, dir with
@@ -44,6 +53,9 @@ def measure (fn dir : String) (n : Nat) : Option String :=
   | "compile", "expr-app" => okNat (some (compileDepth (nestApp n)))
   | "compile", "expr-lambda" => okNat (some (compileDepth (nestLambda n)))
   | "compile", "quote" => okNat (some (compileDepth (nest .quote n)))
+  -- the marker on chains built at run time, marked from their outermost object
+  | "mark", "closure" => okNat (some (markDepthHeap (closureChain n) [closureRoot n]))
+  | "mark", "cont" => okNat (some (markDepthHeap (contChain n) [contRoot n] + contContext))
   | _, _ =>
     match decFn fn, decDir dir with
     | some f, some d => okNat (modelDepth f d n)
@@ -79,6 +91,8 @@ def grid (op dir : String) (n : Nat) : Option String :=
     | "build", "expr-lambda" => some s!"unbounded compile={6 * n + 1}"
     | "read", "expr-lambda" | "read", "expr-let" | "build", "expr-let"
     | "drop", "expr-app" | "drop", "expr-lambda" | "drop", "expr-let" => some "unmodelled"
+    -- library procedures on long run-time data (harness table LIB): no depth model, the children decide
+    | "lib", _ => some "unmodelled"
     | _, "closure" | _, "cont" | _, "nontail" | _, "nontail-error" =>
       if ["build", "gc", "equal", "write", "drop"].contains op then some "unmodelled" else none
     | _, _ => none
